@@ -2,7 +2,9 @@ package main
 
 import (
 	"fmt"
+	"os"
 	"runtime"
+	"strconv"
 	"strings"
 	"sync/atomic"
 	"time"
@@ -45,7 +47,19 @@ func plushFrame() string {
 
 // safeCall runs f with panic recovery and a watchdog. A hung goroutine cannot be killed; it is
 // counted, and generators stop early once maxHangs is reached.
+// VERIF_HANG_SECONDS=<n> raises every watchdog to at least n seconds: bin/check replays a reported hang that way
+// before it believes it (a loaded machine can make a 3 s watchdog fire on code that terminates)
+var minHang = func() time.Duration {
+	if v, err := strconv.Atoi(os.Getenv("VERIF_HANG_SECONDS")); err == nil && v > 0 {
+		return time.Duration(v) * time.Second
+	}
+	return 0
+}()
+
 func safeCall(timeout time.Duration, f func() (string, error)) Obs {
+	if timeout < minHang {
+		timeout = minHang
+	}
 	ch := make(chan Obs, 1)
 	go func() {
 		var o Obs
